@@ -49,13 +49,14 @@ class Choice:
 
 
 class Outcome:
-    __slots__ = ('kind', 'value', 'at', 'trace')
+    __slots__ = ('kind', 'value', 'at', 'trace', 'func')
 
-    def __init__(self, kind, value=None, at=None, trace=()):
+    def __init__(self, kind, value=None, at=None, trace=(), func=None):
         self.kind = kind
         self.value = value
         self.at = at
         self.trace = trace
+        self.func = func        # the Function whose statement produced it (set for inlined tail calls)
 
     def __repr__(self):
         return '%s(%r)@%s' % (self.kind, self.value, self.at)
@@ -399,6 +400,11 @@ class Evaluator:
             return
         if k == 'ReturnStmt':
             c = children(n)
+            tail = self.tail_call(c[0], env, trace) if c else None
+            if tail is not None:
+                for x in tail:
+                    yield x
+                return
             v = self.ev(c[0], env) if c else None
             yield Outcome('return', v, locstr(n), trace), env
             return
@@ -494,6 +500,51 @@ class Evaluator:
             return
         self.unsupported.append('%s at %s' % (k, locstr(n)))
         yield None, env
+
+    def tail_call(self, expr, env, trace):
+        """`return helper(args);` where helper is a free function of the repository with a body of several
+        statements (a branch of the caller moved into a function of its own): the helper's outcomes are the
+        caller's.  None when the expression is not such a call (or a hook answers it)."""
+        n = strip(expr)
+        while n.get('kind') in ('MaterializeTemporaryExpr', 'CXXBindTemporaryExpr', 'ExprWithCleanups',
+                                'CXXConstructExpr') and len(children(n)) == 1:
+            n = strip(children(n)[0])
+        if n.get('kind') != 'CallExpr':
+            return None
+        depth = getattr(self, '_inline_depth', 0)
+        if depth >= 3:
+            return None
+        d, qn, virt, recv = self.prog.resolve_callee(self.tu, n)
+        args = children(n)[1:]
+        if not qn:
+            return None
+        if self.call_hook is not None:
+            r = self.call_hook(self, qn, args, env, n)
+            if r is not NotImplemented:
+                return None
+        gs = [g for g in self.prog.by_name(qn) if g.body is not None and not g.is_pattern and g.cls is None
+              and self.prog.in_repo(g.file)]
+        if len(gs) != 1 or len(gs[0].params) != len(args):
+            return None
+        g = gs[0]
+        body = [x for x in children(g.body) if not x.get('kind', '').endswith('Comment')]
+        if len(body) <= 1:
+            return None         # single-return helpers are evaluated as values (inline_pure)
+        sub = Evaluator(self.prog, g, self.call_hook, self.max_paths)
+        sub._inline_depth = depth + 1
+        env2 = {k_: v_ for k_, v_ in env.items() if isinstance(k_, tuple)}
+        for p, a in zip(g.params, args):
+            env2[p['id']] = self.ev(a, env)
+        out = []
+        for st, e in sub.exec(g.body, env2, trace + (('call', qn),)):
+            if st is None:
+                out.append((Outcome('return', None, locstr(g.node), trace, g), env))
+            else:
+                if st.func is None:
+                    st.func = g
+                out.append((st, env))
+        self.unsupported.extend(sub.unsupported)
+        return out
 
     def call_stmt(self, x, env, trace):
         """Hook for statement-level calls (e.g. to model callee outcomes)."""
